@@ -2,9 +2,10 @@
 # tools/try_patch.sh <patch.diff> <Cxx> [<Cyy> ...]  - apply a seeded change to /repo, run the quick checks, undo it
 P="$1"; shift
 cd /verif || exit 2
+mkdir -p /tmp/try_patch_evidence
 git -C /repo apply "$P" || { echo "patch does not apply"; exit 2; }
 for c in "$@"; do
-  VERIF_KEEP_REPLAYS=1 ./check "$c" --tier quick > /tmp/try_patch_$c.log 2>&1
+  VERIF_EVIDENCE_DIR=/tmp/try_patch_evidence VERIF_KEEP_REPLAYS=1 ./check "$c" --tier quick > /tmp/try_patch_$c.log 2>&1
   rc=$?
   echo "== $c exit=$rc  $(grep -c '^VIOLATION' /tmp/try_patch_$c.log) violation line(s)"
   grep -A1 '^VIOLATION' /tmp/try_patch_$c.log | grep -v '^VIOLATION\|^--' | cut -c1-230 | head -4
